@@ -222,6 +222,12 @@ func buildResp(req *dns.Msg) (m *dns.Msg, sh shape, size int, err error) {
 		return nil, sh, 0, err
 	}
 
+	if isStoredKind(sh.Kind) {
+		m, size, err = storedModel(req, sh)
+
+		return m, sh, size, err
+	}
+
 	m = &dns.Msg{}
 	m.SetReply(req)
 	m.RecursionAvailable = true
@@ -322,11 +328,14 @@ type h8 struct {
 	buildErrors atomic.Int64
 	firstErr    atomic.Value // string
 
+	// pooled answers the stored kinds from the shared Cloner.
+	pooled *pooledState
+
 	mu      sync.Mutex
 	waiters map[int]chan hRecord
 }
 
-func newH8() *h8 { return &h8{waiters: map[int]chan hRecord{}} }
+func newH8() *h8 { return &h8{waiters: map[int]chan hRecord{}, pooled: newPooledState()} }
 
 // expect registers the cell and returns the channel on which the invocations
 // for it are reported.
@@ -364,6 +373,12 @@ func (h *h8) ServeDNS(ctx context.Context, rw dnsserver.ResponseWriter, req *dns
 	rec := hRecord{Size: size}
 	if si, ok := dnsserver.ServerInfoFromContext(ctx); ok {
 		rec.Server = si.Name
+	}
+
+	if isStoredKind(sh.Kind) {
+		// Answer like the cache does: a pooled clone of the stored message.
+		// (size stays the model's: what the stored message amounts to.)
+		resp = h.pooled.respond(req, sh)
 	}
 
 	wErr := rw.WriteMsg(ctx, req, resp)
